@@ -111,6 +111,28 @@ Theorem C15_other_regions_as_they_are : forall n_dim sh labels n_modes coords nb
     end.
 Proof. exact other_regions_unsorted. Qed.
 
+(* the graph that networkx builds from the kNN lists is undirected and has no parallel edges: w is a neighbour of u iff
+   the edge stream contains (u, w) or (w, u), iff u is a neighbour of w; no neighbour is listed twice *)
+Theorem C15_adjacency_undirected : forall es u w,
+  (In w (adj_of es u) <-> In (u, w) es \/ In (w, u) es) /\
+  (In w (adj_of es u) <-> In u (adj_of es w)) /\ NoDup (adj_of es u).
+Proof. exact adjacency_undirected. Qed.
+
+(* search_for_optimal_start: for a transitive, irreflexive comparison of costs the kept start has minimal cost -- no
+   start's walk is strictly cheaper than the kept value, which is the cost of the chosen start's walk (or still the
+   initial inf with the first point chosen, when no cost is below inf) *)
+Theorem C15_start_search_minimal : forall (V : Type) (veqb : V -> V -> bool) (T : Type) (ltb : T -> T -> bool) (inf : T)
+  (tsum : list T -> T) (nodes : list V) (adj : V -> list V) (d2 : V -> V -> T) (fuel : nat),
+  (forall a b c, ltb a b = true -> ltb b c = true -> ltb a c = true) -> (forall a, ltb a a = false) ->
+  forall first s, best_start V veqb T ltb tsum nodes adj d2 fuel nodes inf first = Some s ->
+  exists m, ((m = inf /\ s = first) \/ m = cost_of V veqb T ltb inf tsum nodes adj d2 fuel s) /\
+            forall j, In j nodes -> ltb (cost_of V veqb T ltb inf tsum nodes adj d2 fuel j) m = false.
+Proof.
+  exact (fun V veqb T ltb inf tsum nodes adj d2 fuel Ht Hi first s H =>
+           best_start_minimal V veqb T ltb inf tsum nodes adj d2 fuel Ht Hi nodes inf first [] s first
+                              (or_introl (conj eq_refl eq_refl)) (fun j (Hj : In j []) => match Hj with end) H).
+Qed.
+
 (* the sorter BEFORE the repair (depth-first walk of the start node's component only) loses points: six points in two
    groups of three, 2-NN graph with two components, three points returned (the defect of lead L7) *)
 Theorem C15_unrepaired_sorter_refuted :
@@ -145,3 +167,5 @@ Print Assumptions C15_sorter_entry_point.
 Print Assumptions C15_single_region_sorted_line.
 Print Assumptions C15_other_regions_as_they_are.
 Print Assumptions C15_unrepaired_sorter_refuted.
+Print Assumptions C15_adjacency_undirected.
+Print Assumptions C15_start_search_minimal.
